@@ -1,14 +1,5 @@
 SPECIFICATION Spec
-CONSTANTS Dims = {1, 2} Modes = {TRUE, FALSE} StepCounts = {1}
-CONSTANT Tunings <- TuningsQuick
-CONSTANT StackSets <- StacksOne
-CONSTANT FSets <- FSetsQuick
-CONSTANT QSets <- QSetsQuick
-CONSTANT XSets <- XSetsQuick
-CONSTANT PSets <- PSetsQuick
-CONSTANT HSets <- HSetsQuick
-CONSTANT RSets <- RSetsQuick
-CONSTANT YSets <- YSetsQuick
+CONSTANT Lattices <- LatsQuick
 INVARIANT WeightsSumToOne
 INVARIANT UnitSecondMoment
 INVARIANT TuningAdmissible
